@@ -6,7 +6,7 @@ Open Scope string_scope.
 Definition one (n : string) := filter (fun fd => String.eqb (fn_name fd) n) eon_program.
 Eval vm_compute in (report eon_program (one "_dSIR_pair_based_")).
 Eval vm_compute in (report eon_program (one "fast_SIS")).
-Eval vm_compute in (report eon_program (one "SIS_pair_based")).
+Eval vm_compute in (report eon_program (one "_dSIR_effective_degree_")).
 Eval vm_compute in (report eon_program (one "_process_trans_SIS_nonMarkov_")).
 Eval vm_compute in (report eon_program (one "EBCM_discrete")).
 Eval vm_compute in (report eon_program (one "Attack_rate_discrete_from_graph")).
